@@ -25,6 +25,10 @@ FORBIDDEN = re.compile(
     r"\bsorry\b|\badmit\b|^\s*axiom\s|native_decide|bv_decide|implemented_by|\bunsafe\s|maxHeartbeats\s+0\b")
 
 
+QUICK_SCALE = {"C01": 12, "C02": 5, "C03": 6, "C04": 30, "C05": 25, "C06": 12, "C07": 30, "C08": 25, "C09": 25,
+               "C10": 12, "C12": 8, "C15": 6, "C16": 10, "C17": 25, "C20": 15}
+
+
 def now():
     return time.time()
 
@@ -87,7 +91,8 @@ class Ctx:
             self.corr_mismatches.append({"corr": name, "input": inp, "impl": impl, "model": model})
 
     def budget(self, quick, thorough):
-        n = quick if self.tier == "quick" else thorough
+        # quick-tier multipliers measured so that each quick check takes roughly 20-40 s of harness time
+        n = quick * QUICK_SCALE.get(self.prop, 1) if self.tier == "quick" else thorough
         if self.search_mode:
             n *= 10
         return n
